@@ -8,7 +8,7 @@
 #include "vh.h"
 #include <unistd.h>
 
-#define NENTRY 9
+#define NENTRY 11
 static const char *GOOD = "{\"kty\":\"oct\",\"k\":\"AAECAwQFBgcICQoLDA0ODw\",\"kid\":\"pre-existing\"}";
 static char tmpname[64];
 
@@ -24,6 +24,8 @@ static jwk_set_t *load_via(int entry, const char *doc, size_t len, size_t *eff_l
 	case 2: return jwks_load_strn(NULL, doc, len);
 	case 3: *eff_len = len / 2; return jwks_load_strn(NULL, doc, len / 2);
 	case 4: *eff_len = len ? len - 1 : 0; return jwks_create_strn(doc, *eff_len);
+	case 9: *eff_len = 0; return jwks_load_strn(NULL, doc, 0);		/* explicit zero length although the buffer holds text */
+	case 10: set = jwks_create(GOOD); *before = 1; *eff_len = 0; return jwks_load_strn(set, doc, 0);
 	case 5: case 6: case 7: case 8: {
 		FILE *f = fopen(tmpname, "wb");
 		if (!f) vh_harness_fail("tmp file");
